@@ -234,6 +234,15 @@ def rule_positional(ctx, R):
                                   kind + ':iou-multiplied-by-confidence', repr(src)[:100],
                                   'IoU is multiplied by %r instead of the (floored) detection confidence' % src)
         inline_order = False
+        if cmo:
+            # the ordering clause is read from the desugared control flow in every case
+            from lib import orient as _orient0
+            for i_ in sorted(b.live_blocks()):
+                for k_ in path_conditions(b, i_):
+                    cm = k_.cmp()
+                    o_ = _orient0(cm, lambda x: x.has_call('calculate_metric_object')) if cm else None
+                    if o_ and 'IoU' in repr(o_[2]) and any(x.kind == 'bin' and x.name == 'Mul' for x in o_[1].walk()):
+                        inline_order = True
         if cmo and not (gate_found and mul_found):
             # inline form: `match iou_opt { Some(iou) => { let w = iou * conf; if w >= threshold { Some(w) } .. } }`
             from lib import orient as _orient
